@@ -190,6 +190,8 @@ def decide(pid, tier, seed, merged, problems, mod, here, wall, replay_mode=False
   replay_dir = os.path.join(here, "evidence", "replays")
   os.makedirs(replay_dir, exist_ok=True)
   # stale replays of this property are removed on every run
+  if os.environ.get("VERIF_NO_EVIDENCE"):
+    replay_dir = tempfile.mkdtemp(prefix="vf-replays-", dir=scratch_base())
   if not replay_mode:
     for fn in os.listdir(replay_dir):
       if fn.startswith(pid + "-"):
@@ -232,7 +234,7 @@ def decide(pid, tier, seed, merged, problems, mod, here, wall, replay_mode=False
     for r in inconclusive[:10]:
       out_lines.append("INCONCLUSIVE property=%s reason=%s" % (pid, r))
 
-  if not replay_mode:
+  if not replay_mode and not os.environ.get("VERIF_NO_EVIDENCE"):
     evidence_mod.write(here, pid, tier, seed, merged, mod, wall,
                        n_unlisted=len(unlisted),
                        known=[{"id": h["id"], "count": v["count"]} for h, v in reproduced],
